@@ -1,51 +1,63 @@
 #!/usr/bin/env python3
-"""confirm_seed.py <prop> <worktree> <n> <check-props> -- <demo setup+run shell command, run at worktree root>
-Confirms a seeded defect independently (compiles, baseline tests pass with it, demo passes without / fails with), runs
-/verif checks against /repo with the patch applied (then restores /repo), and files everything under /verif/seeded/<prop>-<n>/."""
-import json, os, shutil, subprocess, sys, time
+"""confirm_seed.py <prop> <worktree> <n> [<check-props>] [-- <demo shell command>]
+
+Independent confirmation of a seeded defect produced by a sub-agent in its scratch worktree:
+  (1) demo passes on the clean tree, (2) the patch applies and the baseline suite (lib + integration tests) still passes,
+  (3) the demo fails with the patch.  Then the seed is filed under /verif/seeded/<prop>-<n>/ (patch.diff, demo, README, meta.json)
+and tools/run_seeds.py evaluates the checks against a scratch COPY of /repo with the patch applied (never /repo itself, so
+nothing else using /repo is disturbed).  DEMO_SETUP / DEMO_CMD lines are read from the seed's README.md unless given after `--`.
+"""
+import json, os, re, shutil, subprocess, sys
 args = sys.argv[1:]
-i = args.index("--")
-prop, wt, n, checkprops = args[0], args[1], args[2], args[3].split(",")
-demo = " ".join(args[i + 1:])
+demo = None
+if "--" in args:
+    i = args.index("--")
+    demo = " ".join(args[i + 1:])
+    args = args[:i]
+prop, wt, n = args[0], args[1], args[2]
+checkprops = args[3].split(",") if len(args) > 3 else [prop]
 sd = os.path.join(wt, "SEED_OUT", n)
+if demo is None:
+    rd = open(os.path.join(sd, "README.md")).read()
+    ms = re.search(r"DEMO_SETUP:\s*`?(.+?)`?\s*$", rd, re.M)
+    mc = re.search(r"DEMO_CMD:\s*`?(.+?)`?\s*$", rd, re.M)
+    assert mc, "no DEMO_CMD in README"
+    demo = ((ms.group(1).strip() + " && ") if ms and ms.group(1).strip().lower() not in ("none", "-", "") else "") + mc.group(1).strip()
 env = dict(os.environ, CARGO_TARGET_DIR=os.path.join(wt, "target"), CARGO_NET_OFFLINE="true")
-def sh(cmd, cwd=wt, timeout=3600):
+
+
+def sh(cmd, cwd=wt, timeout=5400):
     p = subprocess.run(cmd, shell=True, cwd=cwd, env=env, capture_output=True, text=True, timeout=timeout)
     return p.returncode, (p.stdout + p.stderr)
+
+
 def clean():
     sh("git checkout -- . && git clean -fdq -e SEED_OUT -e target")
-meta = {"property": prop, "seed": n, "ran": []}
+
+
+meta = {"property": prop, "seed": n, "run_checks": checkprops, "demo_cmd": demo}
 clean()
 rc0, out0 = sh(demo)
 meta["demo_without_change"] = {"exit": rc0, "tail": out0[-600:]}
 clean()
 rc, out = sh("git apply SEED_OUT/%s/patch.diff" % n)
 assert rc == 0, out
-rcb, outb = sh("cargo test --workspace --offline --no-fail-fast --lib --tests 2>&1 | grep -E '^test result|FAILED|failed' | head -40")
+rcb, outb = sh("cargo test --workspace --offline --no-fail-fast --lib --tests 2>&1 | grep -E '^test result|FAILED|failed|^error' | head -40")
 meta["baseline_tests_with_change"] = outb[-1500:]
-base_ok = "FAILED" not in outb and "failed;" in outb and all(" 0 failed" in l for l in outb.split("\n") if l.startswith("test result"))
+base_ok = "FAILED" not in outb and "error" not in outb and all(" 0 failed" in l for l in outb.split("\n") if l.startswith("test result")) and "test result" in outb
 rc1, out1 = sh(demo)
 meta["demo_with_change"] = {"exit": rc1, "tail": out1[-800:]}
 clean()
 meta["confirmed"] = bool(rc0 == 0 and rc1 != 0 and base_ok)
-# run our checks against /repo with the patch applied
-res = {}
-rc, out = sh("git -C /repo apply %s/patch.diff" % sd, cwd="/verif")
-assert rc == 0, out
-try:
-    for cp in checkprops:
-        t0 = time.time()
-        p = subprocess.run(["./check", cp], cwd="/verif", capture_output=True, text=True)
-        res[cp] = {"exit": p.returncode, "wall_s": round(time.time() - t0, 1), "lines": [l for l in p.stdout.split("\n") if l.startswith(("VIOLATION", "UNDECIDED", "KNOWN", cp))]}
-finally:
-    subprocess.run("git -C /repo checkout -- .", shell=True)
-meta["checks"] = res
-meta["detected_by"] = [cp for cp, r in res.items() if r["exit"] == 1]
 dst = "/verif/seeded/%s-%s" % (prop, n)
 os.makedirs(dst, exist_ok=True)
 for f in os.listdir(sd):
-    shutil.copy(os.path.join(sd, f), dst)
+    if os.path.isfile(os.path.join(sd, f)) and os.path.getsize(os.path.join(sd, f)) < 400000:
+        shutil.copy(os.path.join(sd, f), dst)
 meta["what_it_needs"] = "see README.md"
-meta["demo_cmd"] = demo
 json.dump(meta, open(os.path.join(dst, "meta.json"), "w"), indent=1)
-print(json.dumps({k: meta[k] for k in ("confirmed", "detected_by")}), json.dumps(res)[:800])
+print("confirmed=%s (demo clean exit %d, demo with change exit %d, baseline ok %s)" % (meta["confirmed"], rc0, rc1, base_ok))
+if meta["confirmed"]:
+    subprocess.run([sys.executable, os.path.join(os.path.dirname(os.path.abspath(__file__)), "run_seeds.py"), "%s-%s" % (prop, n)])
+else:
+    print("NOT CONFIRMED — seed kept for inspection only (meta.json says confirmed=false)")
